@@ -1,1 +1,55 @@
-From Jawk Require Import Base.
+(* C08 — --skip S --take T pick exactly rows S..S+T-1 of the unlimited result. *)
+From Jawk Require Import Base Json Ctx Printer Chain PipelineSpec OrderProofs SorterProofs ChainProofs.
+
+(* the limiter stage is firstn T . skipn S, whatever follows it *)
+Theorem C08_limiter : forall (E : Type) (get : E -> ctx E -> option json) sk tk (post : list (stage E)) ss cs,
+  nb E post = true ->
+  run E get (SLimit sk tk :: post) (StLimit 0 0 :: ss) cs = run E get post ss (limit_spec E sk tk cs).
+Proof. intros E get sk tk post ss cs H. exact (run_limit E get sk tk post ss cs H). Qed.
+Print Assumptions C08_limiter.
+
+(* with a limiter anywhere in a well-shaped pipeline, the rows are rows S..S+T-1 of what the stages before it
+   produce without it (sorting capacities removed), passed through the stages after it (group/merge) *)
+Theorem C08_slice : forall (E : Type) (get : E -> ctx E -> option json) (pre post : list (stage E)) sk tk cs,
+  wfp E (pre ++ SLimit sk tk :: post) -> wfp E (map (uncap E) pre) ->
+  run E get (pre ++ SLimit sk tk :: post) (map (init_state E) (pre ++ SLimit sk tk :: post)) cs =
+  spec E get post (limit_spec E sk tk
+     (run E get (map (uncap E) pre) (map (init_state E) (map (uncap E) pre)) cs)).
+Proof.
+  intros E get pre post sk tk cs H1 H2.
+  rewrite (run_spec E get (jcmp_refl show) (jcmp_antisym show) (jcmp_trans_le show) (jcmp_eq_l show) _ H1).
+  rewrite (run_spec E get (jcmp_refl show) (jcmp_antisym show) (jcmp_trans_le show) (jcmp_eq_l show) _ H2).
+  rewrite spec_app, spec_uncap. reflexivity.
+Qed.
+Print Assumptions C08_slice.
+
+(* the top-N shortcut of the sorter is invisible: with capacity n the buffer flushes to the first n rows of
+   the full stable sort, ties included *)
+Theorem C08_topN_invisible : forall (E : Type) (get : E -> ctx E -> option json) k dir n cs,
+  flush E dir (snd (fold_left (sort_step E get k dir) cs (Some n, []))) =
+  firstn (N.to_nat n) (sort_spec E get k dir cs).
+Proof.
+  intros E get.
+  exact (sorter_spec_cap E get (jcmp_refl show) (jcmp_antisym show) (jcmp_trans_le show) (jcmp_eq_l show)).
+Qed.
+Print Assumptions C08_topN_invisible.
+
+(* a capped sorter followed by the limiter behaves like the uncapped sorter followed by the limiter *)
+Theorem C08_sort_take : forall (E : Type) (get : E -> ctx E -> option json) k dir n sk lim post ss cs,
+  nb E post = true -> (sk + lim <= n)%N ->
+  run E get (SSort k dir (Some n) :: SLimit sk (Some lim) :: post) (StSort (Some n) [] :: StLimit 0 0 :: ss) cs =
+  run E get (SLimit sk (Some lim) :: post) (StLimit 0 0 :: ss) (sort_spec E get k dir cs).
+Proof.
+  intros E get.
+  exact (run_sort_cap E get (jcmp_refl show) (jcmp_antisym show) (jcmp_trans_le show) (jcmp_eq_l show)).
+Qed.
+Print Assumptions C08_sort_take.
+
+(* non-vacuity: a pipeline of the shape jawk builds for --sort-by k2 --sort-by k1 --skip 1 --take 2 --merge *)
+Example C08_shape_inhabited : forall (E : Type) (k1 k2 : E),
+  wfp E [SSort k2 Asc None; SSort k1 Desc (Some 3%N); SLimit 1 (Some 2%N); SMerge].
+Proof.
+  intros E k1 k2. cbn. repeat split; try (left; reflexivity).
+  - right. eauto.
+  - exists 1%N, 2%N, [SMerge]. repeat split. reflexivity. 
+Qed.
